@@ -296,7 +296,9 @@ def check_wrapper_dispatch(repo, f, R, rule="DISPATCH", must_forward=(), depth=0
                     f"silently ignored for {'mixed' if meth == 'mix' else 'all-' + meth} bases",
                     where=f.where(call), expected="reached only when `transform is None`", found=cond_text(conds)[:100])
             R.check(ty == meth, rule, f.site, text + " :: coordinate types",
-                    f"this branch is taken for {'every' if ty == 'any' else 'a ' + str(ty)} basis but assembles with construct_array_{meth}",
+                    "this branch is taken for " + {"any": "every basis", "never": "no basis at all (its condition can never hold)",
+                                                    "partial": "bases that are neither tested to be all Cartesian nor all spherical"}.get(ty, f"a {ty} basis")
+                    + f" but assembles with construct_array_{meth}",
                     where=f.where(call), expected=f"construct_array_{ty}", found=f"construct_array_{meth}")
             reach[meth] += 1
         else:
